@@ -13,7 +13,7 @@ certificate in use").  With `gen_knows_key_eq_model` the set of keys per variant
 this file stops checking.  (`Generated/ApplyDomain.lean` ties the panic arms of the `apply_*`
 functions; this is the one decision function of the key life cycle that the roll's safety rests on.)
 -/
-import KrillModel.Generated.PureFns
+import KrillModel.Generated.PureFnsC04
 import KrillModel.Ca.Keys
 namespace KM.Props.C04Src
 open KM.CaK
